@@ -210,13 +210,13 @@ def parse_unit(path):
                     fn.rewrites.append((rule, mm.group(1), mm.group(2), multi))
                 pending = (setter, [m.group(2)])
             elif first == 'insert':
-                m = re.match(r'(after|before|start|end|loopend|loopstart)(?:\[(\d+)\])?\s*(?:`(.*?)`)?\s*:\s*(.*)$', rest, re.S)
+                m = re.match(r'(after|before|start|end|loopend|loopstart|exhaust)(?:\[(\d+)\])?\s*(?:`(.*?)`)?\s*:\s*(.*)$', rest, re.S)
                 if not m:
                     err('bad insert')
                 where, anchor = m.group(1), m.group(3)
                 if m.group(2):
                     anchor = (anchor, int(m.group(2)))
-                if where in ('loopend', 'loopstart'):
+                if where in ('loopend', 'loopstart', 'exhaust'):
                     anchor = int(m.group(2) or 0)
 
                 def setter(t, where=where, anchor=anchor, fn=cur):
@@ -723,8 +723,15 @@ def emit_fn(asm, unit, fs, src, canary):
         if kw != 'for' or not m0 or re.search(r'\bcontinue\b', src.text[lbo:lbc]):
             raise Lost(f'{fs.qual}: loop {n} is not a simple `for X in E` without `continue` (R11d not applicable)')
         x, e = m0.group(1), m0.group(2)
-        ed.add(kw_start, lbo, f'let mut verif_it_{x} = {e}; loop ', ('rw', 'R11d'))
-        ed.edits.append((lbo + 1, lbo + 1, f' let {x} = match verif_it_{x}.next() {{ Some(v) => v, None => {{ break; }} }};', ('rw', 'R11d')))
+        exh = ' '.join(t for (w, a, t) in fs.inserts if w == 'exhaust' and a == n)
+        if e.endswith('.by_ref()'):
+            # `for X in it.by_ref()`: the loop advances `it` itself
+            base = e[:-len('.by_ref()')]
+            ed.add(kw_start, lbo, 'loop ', ('rw', 'R11d'))
+            ed.edits.append((lbo + 1, lbo + 1, f' let {x} = match {base}.next() {{ Some(v) => v, None => {{ {exh} break; }} }};', ('rw', 'R11d')))
+        else:
+            ed.add(kw_start, lbo, f'let mut verif_it_{x} = {e}; loop ', ('rw', 'R11d'))
+            ed.edits.append((lbo + 1, lbo + 1, f' let {x} = match verif_it_{x}.next() {{ Some(v) => v, None => {{ {exh} break; }} }};', ('rw', 'R11d')))
         log.append('R11d')
     # R11b: `for` over a range / enumerate()d slice that is left by `break` -> the equivalent `while`
     for n in getattr(fs, 'forwhile', []):
